@@ -26,6 +26,10 @@ CLAIMED = {
    technique="bounded exhaustive enumeration of provider populations over a typed universe x consumer field kinds x iteration orders on the real container; admissible-set reference model",
    text="All 5^6 populations over six provider types (exact pointer type, three interfaces, same-struct twin type, lazy provider; absent / default-named / named / both / two named) are started with a consumer carrying every field kind (*T, I, []*T, []I, any, []any, func-tag forms) under both base orders; 3^6 populations x 13 required single-point consumers; small populations under every single non-default iteration answer. Per point: slice = every admissible component exactly once except the holder; single = an admissible one; none admissible => error iff required.",
    note="Trusted: iteration-order shim; the admissible-set model (type identity, interface implementation, method presence/result). Outside: methods with parameters, more than two instances per type."),
+ "C07": dict(engine=E1+" + sequence enumeration on the real singleton registry", design="§7 C07",
+   technique="bounded exhaustive enumeration of provider populations x name assignments x requested names x field kinds x required/optional x sibling placements on the real container; all registration sequences (<=4) with colliding names on the real registry",
+   text="Every population of <=3 providers over {TA,TB,TD} x {x,y,default name} with distinct registered names x requested name {x,y,TA's default name,absent} x field kind {*TA, I1, any} x required/optional x four sibling-field arrangements x both iteration orders is started for real (holders built with reflect.StructOf); oracle: field is exactly the component registered under the name; absent or not assignable => error (no panic) if required, untouched and no error if optional. All 780 (thorough 3905) registration sequences over five instances with colliding names: each name maps to its first instance.",
+   note="Trusted: reflect.StructOf holders behave like declared structs (C11 checks twins); iteration-order shim. Outside: >3 providers; by-name tags on slice fields."),
  "C05": dict(engine=E1, design="§7 C05",
    technique="bounded exhaustive enumeration of graphs x lazy/eager x observer sets x iteration orders (deviation bound 1) on the real container; event-log oracle",
    text="All 3-node graphs x 8 lazy assignments x {0,1,2} observing processors x orders (all 6 base permutations; every single non-default iteration answer) are started for real; the event log must show exactly one populate->before->AfterPropertiesSet->Init->after sequence per created node, population complete before before-init (snapshot), non-back-depending dependencies initialised first, lazy nodes only on demand and exactly once.",
